@@ -21,3 +21,9 @@ pub use edge::{Edge, EdgeFlags, EdgeRecord};
 pub use node::{Node, NodeFlags, NodeRecord};
 pub use property::{CompareOp, PropertyStorage};
 pub use store::LpgStore;
+
+// Verification hook H1: make the public configuration types nameable from outside the crate.
+#[cfg(grafeo_verif)]
+pub use property::{CompressionMode, PropertyColumn};
+#[cfg(grafeo_verif)]
+pub use store::LpgStoreConfig;
